@@ -100,7 +100,7 @@ def int_of_prefix(e, s, l, what):
     raise Unsupported('prefix of a longer symbolic-length slice')
 
 
-def install(eng, max_candidates=3, reader_modes='full'):
+def install(eng, max_candidates=3, reader_modes='full', group=True):
     reg = eng._reg if hasattr(eng, '_reg') else None
     I = eng.intercepts
     def reset(e):
@@ -336,6 +336,54 @@ def install(eng, max_candidates=3, reader_modes='full'):
     reg(FE + 'Sub', fe_bin('sub'))
     reg(FE + 'Mul', fe_bin('mul'))
 
+    def fe_one(e, a, ins):
+        set_elem(e, a[0], IntElem(1, P))
+        return a[0]
+    reg(FE + 'One', fe_one)
+
+    def fe_set(e, a, ins):
+        xv = elem_ptr_val(e, a[1])
+        set_elem(e, a[0], xv if isinstance(xv, IntElem) else IntElem(0, P))
+        return a[0]
+    reg(FE + 'Set', fe_set)
+
+    def fe_opp(e, a, ins):
+        z, x = a
+        xv = elem_ptr_val(e, x)
+        xi = xv.v if isinstance(xv, IntElem) else 0
+        set_elem(e, z, IntElem(-xi, P))
+        return z
+    reg(FE + 'Opp', fe_opp)
+
+    def fe_iszero(e, a, ins):
+        xv = elem_ptr_val(e, a[0])
+        xi = xv.v if isinstance(xv, IntElem) else 0
+        if isinstance(xi, int):
+            return 1 if xi % P == 0 else 0
+        return z3.If(e.int_mod(xi, P) == 0, z3.BitVecVal(1, 64), z3.BitVecVal(0, 64))
+    reg(FE + 'IsZero', fe_iszero)
+
+    def fe_bytes(e, a, ins):
+        xv = elem_ptr_val(e, a[0])
+        xi = xv.v if isinstance(xv, IntElem) else 0
+        if isinstance(xi, int):
+            return e.new_slice(list((xi % P).to_bytes(32, 'big')))
+        r = e.int_mod(xi, P)
+        return e.new_slice([ByteOf(r, j, 32) for j in range(32)])
+    reg(FE + 'Bytes', fe_bytes)
+
+    def fe_select(e, a, ins):
+        v, x, y, cond = a
+        xv, yv = elem_ptr_val(e, x), elem_ptr_val(e, y)
+        xi = xv.v if isinstance(xv, IntElem) else 0
+        yi = yv.v if isinstance(yv, IntElem) else 0
+        if isinstance(cond, int):
+            set_elem(e, v, IntElem(xi if cond == 1 else yi, P))
+        else:
+            set_elem(e, v, IntElem(z3.If(cond == 1, xi if not isinstance(xi, int) else z3.IntVal(xi), yi if not isinstance(yi, int) else z3.IntVal(yi)), P))
+        return v
+    reg(FE + 'Select', fe_select)
+
     def fe_square(e, a, ins):
         z, x = a
         xv = elem_ptr_val(e, x)
@@ -355,6 +403,10 @@ def install(eng, max_candidates=3, reader_modes='full'):
         e.sm2_log.append(('fe_equal', xi, yi))
         return z3.If(d % P == 0, z3.BitVecVal(1, 64), z3.BitVecVal(0, 64))
     reg(FE + 'Equal', fe_equal)
+
+    if not group:
+        for k in [k for k in list(I) if 'SM2Point' in k or k.endswith('.ScalarBaseMult') or k.endswith('.ScalarMixedMult_Unsafe') or k.endswith('.NewSM2Point')]:
+            del I[k]
 
     # sm2B is a concrete element built by the package initialiser from the curve parameters: expose it as IntElem
     def fix_globals(e):
